@@ -20,3 +20,28 @@ claim("C09",
       "bounded exhaustive schedule enumeration (deviation-bounded, stateless re-execution of the real code)",
       "M2 over ample-budget, tight-budget (three gated send cycles) and 1-second-tick unreliable-fragment scenarios: accounted bytes of all four channel kinds within [0,max] after every library call, no unreliable reservation older than 3 s after update, zero residue and full budget at the quiescent end, no budget disconnect for in-budget traffic",
       TB, "DESIGN.md §5 C09")
+
+claim("C03",
+      "exhaustive enumeration of delivery sequences (permutations, duplicates, losses) of real packet batches",
+      "sweep over (message set, delivery sequence) cases: every boundary length on every channel kind and direction, every ordered pair from the packing alphabet, all 24/720 interleavings of the slices of two sliced messages, one message per channel in every delivery permutation; each with every single duplicate and every single loss; oracle: byte identity with a message submitted on the same channel/direction, unreliable copies bounded by packet deliveries, reliable exactly once after a fault-free tail",
+      TB, "DESIGN.md §5 C03")
+
+claim("C13",
+      "exhaustive sweeps over size/counter classes + explicit-state DFS of the ack range list + schedule enumeration with a size oracle",
+      "all pairs/triples of message lengths 1188..1201 x 8 sequence classes x 8 message-id classes on reliable and unreliable channels through the real sender (packet <= 1300, never PacketSerialization, peer reads everything back); ack packets for 1..400 pending ranges x 6 spacings x 3 arrival orders; the ack-world DFS; the C01 schedule exploration with the size oracle on every flush; netcode datagram sizes for payload lengths {0,1,1299,1300,1301} x sequence classes",
+      TB, "DESIGN.md §5 C13")
+
+claim("C14",
+      "bounded exhaustive schedule enumeration (deviation-bounded, stateless re-execution of the real code)",
+      "9 budgets x 8 channel lists x mixed-size script, every schedule with <= d drop/delay deviations on data and ack packets; constraint oracle on the decoded packets of every get_packets_to_send (sum <= budget, unsent eligible items did not fit what their channel left, unreliable whole-or-dropped-forever, reliable backlog eventually sent)",
+      TB, "DESIGN.md §5 C14")
+
+claim("C15",
+      "bounded exhaustive schedule enumeration over tick-length words and ack fates",
+      "every tick-length word over {R/3,R/2,R,3R/2} up to length 2/4 x 4 scripts x every schedule with <= 2 deviations on data and ack packets, plus 3.1 s silences; oracle on decoded packets: spacing >= resend_time, prompt retransmission at the first due flush, silence after a processed ack (< 3 s old)",
+      TB, "DESIGN.md §5 C15")
+
+claim("C16",
+      "exhaustive enumeration of value products and byte mutations through the crates' own codecs + explicit-state DFS of the ack range list",
+      "decode(encode(v)) = v over the product of field classes for all five renet packet kinds, all seven netcode packet kinds x 18 sequence values x keys x payload lengths, challenge tokens, connect tokens with every 1..32 address shape through write/read and seal/open; every single-byte substitution / truncation of exemplar encodings and hand-assembled token slot patterns must re-encode to the same value; ack packet = reference set in every state of the ack world",
+      TB, "DESIGN.md §5 C16")
